@@ -1,7 +1,163 @@
-(* Property C17 — placeholder while the development is being written *)
-From Coq Require Import List Arith.
-From PTN Require Import Tree.RTree Tree.Nav Tree.UpdatePath Tree.CachePath.
+(* Property C17 — tree navigation and the TDVP sweep order are correct on every rooted tree.
+   Statements only; each is closed by `exact`.  Universal statements quantify over every
+   rtree with unique identifiers (NoDup (ids t)); statements named *_bounded_N quantify over
+   the finite enumeration `trees_upto N` and are evaluated by the kernel (vm_compute). *)
+From Coq Require Import List Arith Permutation.
+From PTN Require Import Tree.RTree Tree.RTreeProofs Tree.Nav Tree.NavProofs
+     Tree.UpdatePath Tree.UpdatePathProofs Tree.CachePath Tree.Enum Tree.EnumProofs.
 Import ListNotations.
-Example C17_example : update_path (RNode 0 [RNode 1 [RNode 2 []]; RNode 3 []]) = Some [2; 1; 0; 3].
+
+(* ---- linearise: permutation of the nodes, children before parents, root last -------- *)
+Theorem C17_linearise_perm : forall t, Permutation (linearise t) (ids t).
+Proof. exact linearise_perm. Qed.
+Print Assumptions C17_linearise_perm.
+
+Theorem C17_linearise_child_before_parent : forall t p c, In (p, c) (edges t) ->
+  exists l1 l2 l3, linearise t = l1 ++ c :: l2 ++ p :: l3.
+Proof. exact linearise_child_before_parent. Qed.
+Print Assumptions C17_linearise_child_before_parent.
+
+Theorem C17_linearise_root_last : forall t, exists l, linearise t = l ++ [rid t].
+Proof. exact linearise_root_last. Qed.
+Print Assumptions C17_linearise_root_last.
+
+(* ---- find_path_to_root ----------------------------------------------------------- *)
+Theorem C17_root_path_spec : forall t x p, path_to_root t x = Some p ->
+  (exists r, p = x :: r) /\ (exists r, p = r ++ [rid t]) /\
+  chain (fun a b => In (b, a) (edges t)) p /\ (NoDup (ids t) -> NoDup p).
+Proof. exact root_path_spec. Qed.
+Print Assumptions C17_root_path_spec.
+
+Theorem C17_root_path_defined : forall t x, In x (ids t) <-> exists p, path_to_root t x = Some p.
+Proof. exact root_path_defined. Qed.
+Print Assumptions C17_root_path_defined.
+
+(* ---- path_from_to (the literal model) -------------------------------------------- *)
+Theorem C17_path_from_to_spec : forall t a b, NoDup (ids t) -> In a (ids t) -> In b (ids t) ->
+  exists p, path_from_to t a b = Some p /\
+            (exists r, p = a :: r) /\ (exists r, p = r ++ [b]) /\
+            chain (adjacent t) p /\ NoDup p.
+Proof. exact path_from_to_spec. Qed.
+Print Assumptions C17_path_from_to_spec.
+
+(* ... hence THE tree path: any repetition-free walk along edges from a to b is it *)
+Theorem C17_path_unique : forall t a b p, NoDup (ids t) -> chain (adjacent t) p -> NoDup p ->
+  (exists r, p = a :: r) -> (exists r, p = r ++ [b]) -> path_from_to t a b = Some p.
+Proof. exact path_unique. Qed.
+Print Assumptions C17_path_unique.
+
+Theorem C17_path_self : forall t a, path_from_to t a a = Some [a].
+Proof. exact path_self. Qed.
+Print Assumptions C17_path_self.
+
+Theorem C17_path_defined : forall t a b, a <> b ->
+  ((In a (ids t) /\ In b (ids t)) <-> exists p, path_from_to t a b = Some p).
+Proof. exact path_from_to_defined. Qed.
+Print Assumptions C17_path_defined.
+
+(* ---- distances from the root: keys in pre-order, value = len(path) - 1 ------------- *)
+Theorem C17_root_distance_spec : forall t, NoDup (ids t) ->
+  distance_to_node t (rid t) = Some (depths 0 t) /\
+  map fst (depths 0 t) = ids t /\
+  forall x, In x (ids t) ->
+    exists p, path_from_to t (rid t) x = Some p /\ assoc x (depths 0 t) = Some (length p - 1).
+Proof. exact root_distance_spec. Qed.
+Print Assumptions C17_root_distance_spec.
+
+(* distances from every centre: bounded companion (all trees with <= 9 nodes) *)
+Theorem C17_distance_spec_bounded_9 : forall t, In t (trees_upto 9) ->
+  forall c, In c (ids t) -> exists d, distance_to_node t c = Some d /\ length d = size t /\
+    forall x, In x (ids t) -> exists k, assoc x d = Some k /\ tree_dist t c x = Some k.
+Proof. exact distances_bounded_9. Qed.
+Print Assumptions C17_distance_spec_bounded_9.
+
+(* ---- subtree, leaves, subtree size ----------------------------------------------- *)
+Theorem C17_subtree_spec : forall t x, NoDup (ids t) -> In x (ids t) ->
+  exists l, subtree_nodes t x = Some l /\ NoDup l /\ (exists r, l = x :: r) /\
+    forall y, In y l <-> exists p, path_to_root t y = Some p /\ In x p.
+Proof. exact subtree_nodes_spec. Qed.
+Print Assumptions C17_subtree_spec.
+
+Theorem C17_leaves_spec : forall t x, NoDup (ids t) -> In x (ids t) ->
+  exists l ns, leaves_under t x = Some l /\ subtree_nodes t x = Some ns /\
+    forall y, In y l <-> In y ns /\ is_leaf t y = true.
+Proof. exact leaves_under_spec. Qed.
+Print Assumptions C17_leaves_spec.
+
+Theorem C17_subtree_size_spec : forall t x,
+  subtree_size t x = option_map (@length nat) (subtree_nodes t x).
+Proof. exact subtree_size_spec. Qed.
+Print Assumptions C17_subtree_size_spec.
+
+Theorem C17_get_leaves_spec : forall order t y, NoDup (ids t) -> (forall z, In z order <-> In z (ids t)) ->
+  (In y (get_leaves order t) <-> In y (leaves t)).
+Proof. exact get_leaves_spec. Qed.
+Print Assumptions C17_get_leaves_spec.
+
+Theorem C17_nearest_neighbours_spec : forall order t p c, NoDup (ids t) ->
+  (In (p, c) (nearest_neighbours order t) <-> In p order /\ In (p, c) (edges t)).
+Proof. exact nearest_neighbours_spec. Qed.
+Print Assumptions C17_nearest_neighbours_spec.
+
+(* ---- the TDVP update path -------------------------------------------------------- *)
+Theorem C17_update_path_perm : forall t, NoDup (ids t) ->
+  exists p, update_path t = Some p /\ Permutation p (ids t).
+Proof. exact update_path_perm. Qed.
+Print Assumptions C17_update_path_perm.
+
+(* the head is the start node: a leaf (no children), of maximal depth, the first such in
+   pre-order (all entries before it in the distance dict are strictly shallower) *)
+Theorem C17_update_path_start : forall t, NoDup (ids t) ->
+  exists st l, update_path t = Some (st :: l) /\
+    start_node t = Some st /\ In st (ids t) /\ children_ids t st = [] /\
+    (forall x vx vs, assoc x (depths 0 t) = Some vx -> assoc st (depths 0 t) = Some vs -> vx <= vs) /\
+    (exists l1 v l2, depths 0 t = l1 ++ (st, v) :: l2 /\ forall k' v', In (k', v') l1 -> v' < v).
+Proof.
+  intros t Hw. destruct (update_path_start t Hw) as [st [l [F U]]]. exists st, l.
+  exact (conj U (conj (sf_start _ _ F) (conj (sf_in _ _ F) (conj (sf_leaf _ _ F) (conj (sf_max _ _ F) (sf_first _ _ F)))))).
+Qed.
+Print Assumptions C17_update_path_start.
+
+Theorem C17_update_path_end : forall t, NoDup (ids t) ->
+  exists l x, update_path t = Some (l ++ [x]) /\ degree t x <= 1.
+Proof. exact update_path_end. Qed.
+Print Assumptions C17_update_path_end.
+
+(* walking the update path along tree paths crosses no edge more than twice: bounded *)
+Theorem C17_update_path_crossings_bounded_10 : forall t, In t (trees_upto 10) ->
+  exists p w, update_path t = Some p /\ walk_edges t p = Some w /\
+              forall e, In e (edges t) -> crossings e w <= 2.
+Proof. exact crossings_bounded_10. Qed.
+Print Assumptions C17_update_path_crossings_bounded_10.
+
+(* ---- the initial cache: bounded -------------------------------------------------- *)
+(* cache_ok t u keys: one key per edge and no others; every key (n, m) has m = the second
+   node of the path from n to u; the keys (j, n) of the other neighbours of n precede (n, m) *)
+Theorem C17_cache_keys_bounded_10 : forall t, In t (trees_upto 10) ->
+  exists u l keys, update_path t = Some (u :: l) /\ tdvp_cache_keys t = Some keys /\ cache_ok t u keys.
+Proof. exact cache_bounded_10. Qed.
+Print Assumptions C17_cache_keys_bounded_10.
+
+Theorem C17_cache_keys_any_bounded_9 : forall t, In t (trees_upto 9) ->
+  forall u, In u (ids t) -> exists keys, cache_keys t u = Some keys /\ cache_ok t u keys.
+Proof. exact cache_any_bounded_9. Qed.
+Print Assumptions C17_cache_keys_any_bounded_9.
+
+(* the bounded statements range over every tree shape up to the bound *)
+Theorem C17_enumeration_complete : forall t n, size t <= n -> In (relabel (erase t)) (trees_upto n).
+Proof. exact trees_upto_complete. Qed.
+Print Assumptions C17_enumeration_complete.
+
+(* ---- non-vacuity ----------------------------------------------------------------- *)
+Definition C17_ex : rtree :=
+  RNode 0 [RNode 1 [RNode 2 []; RNode 3 [RNode 4 []]]; RNode 5 []; RNode 6 [RNode 7 []; RNode 8 []]].
+
+Example C17_example_wf : NoDup (ids C17_ex).
+Proof. repeat constructor; simpl; intuition discriminate. Qed.
+Print Assumptions C17_example_wf.
+
+Example C17_example : (path_from_to C17_ex 4 7, update_path C17_ex, tdvp_cache_keys C17_ex) =
+  (Some [4; 3; 1; 0; 6; 7], Some [4; 3; 2; 1; 5; 0; 8; 6; 7],
+   Some [(5, 0); (7, 6); (8, 6); (6, 0); (0, 1); (2, 1); (1, 3); (3, 4)]).
 Proof. vm_compute. reflexivity. Qed.
 Print Assumptions C17_example.
